@@ -419,6 +419,7 @@ ROUND7_ADDENDA = {
     "C12": "end-to-end part with DSN parameters as in C01",
     "C13": "end-to-end part with a formatting logger as in C01",
     "C14": "objects of 6000 / 7300 members and objects with few keys of 1.7-2.1 KB (key offsets beyond 16 bits)",
+    "C15": "optional-metadata fields behind the table map's NULL bitmap with lengths on the packed-integer boundaries (250, 251, 252, 1000, 65535, 65536, 70000 bytes)",
     "C16": "after decoding, the caller's buffer is overwritten: every returned string (database, SQL, file name, server version) must be unchanged",
     "C17": "two more classes of malformed packet (a complete event behind 0xef+flag, behind a stray 0x00); one injection scenario in three sends a second, header-less packet directly behind the first",
     "C19": "kind typed56: set text with unsorted, overlapping, nested and touching intervals - membership of the parsed set, and of the set parsed from its printed form, equals the union",
